@@ -109,12 +109,26 @@ ATOMS = {
     "for(int cell=0;cell<c_ports*c_ports;++cell)|vaa.vaa_b_matrix[cell]==NULL": "atom:apply_b_has_null_cell",
     "if(vaa.vaa_a_matrix!=NULL)|vaa.vaa_a_rows!=a_rows||vaa.vaa_a_columns!=c_ports": "atom:apply_a_dimensions_wrong",
     "if(vaa.vaa_a_matrix!=NULL)|for(int cell=0;cell<a_rows*c_ports;++cell)|vaa.vaa_a_matrix[cell]==NULL": "atom:apply_a_has_null_cell",
+    # _vnacal_new_add_common
+    "if(s_port_map!=NULL)|for(int s_port_index=0;s_port_index<s_ports;++s_port_index)|(b_rows<full_m_rows&&port>full_m_rows)||"
+    "(b_columns<full_m_columns&&port>full_m_columns)": "atom:add_map_port_outside_m",
+    "if(a_matrix!=NULL)|a_rows!=rows||a_columns!=b_columns": "atom:add_a_dimensions_wrong",
+    "if(s_port_map!=NULL)|for(int s_port_index=0;s_port_index<s_ports;++s_port_index)|port<1": "atom:add_scan_port_below_1",
+    "if(s_port_map!=NULL)|for(int s_port_index=0;s_port_index<s_ports;++s_port_index)|s_port_index<s_rows&&max_port>full_s_rows":
+        "atom:add_scan_row_bound",
+    "if(s_port_map!=NULL)|for(int s_port_index=0;s_port_index<s_ports;++s_port_index)|s_port_index<s_columns&&max_port>full_s_columns":
+        "atom:add_scan_column_bound",
+    "if(s_port_map!=NULL)|for(int s_port_index=0;s_port_index<s_ports;++s_port_index)|port_connected[port-1]": "atom:add_scan_duplicate",
+    "for(int s_cell=0;s_cell<s_cells;++s_cell)|_vnacal_new_check_parameter(function,vnp,s_matrix[s_cell])==-1": "atom:add_parameter_invalid",
+    "if(vnp->vn_m_error_vector!=NULL&&(VL_TYPE(vlp)==VNACAL_T16||VL_TYPE(vlp)==VNACAL_U16))|"
+    "for(int s_cell=0;s_cell<full_s_rows*full_s_columns;++s_cell)|full_s_matrix[s_cell]==NULL": "atom:add_full_s_incomplete_16",
     # _vnacal_get_calibration
     "(calp=vcp->vc_calibration_vector[ci])==NULL": "atom:slot_empty",
 }
 ATOMS = dict((re.sub(r"\s+", "", k), v) for k, v in ATOMS.items())
 # callees that report an error themselves before they return a failure: the categories are read from the callee
 REPORTING_CALLEES = {"_vnacal_new_check_all_frequency_ranges": ("vnacal_new_parameter.c", ["check_single_frequency_range"]),
+                     "_vnacal_new_check_parameter": ("vnacal_new_parameter.c", ["_vnacal_new_check_parameter", "check_single_frequency_range"]),
                      "_vnacal_new_err_need_full_s": ("vnacal_new_add_common.c", ["_vnacal_new_err_need_full_s"])}
 # callees that do work on the object and can fail ("fails later in its work")
 LATE_CALLEES = set("vs_init _vnacal_calibration_alloc _vnacal_add_calibration_common vnadata_init vnadata_set_frequency_vector".split())
@@ -196,6 +210,8 @@ class Cond(object):
             return "(CDbl (%d # %d))" % (fr.numerator, fr.denominator)
         if s == "NULL":
             return "CNull"
+        if re.match(r"^'[^'\\]'$", s):
+            return "(CInt (%d))" % ord(s[1])
         if re.match(r"^%s$" % VAR_RE, s):
             n = norm(s)
             if n in self.consts:
@@ -213,6 +229,10 @@ class Cond(object):
         key = norm(self.prefix + s)
         if key in ATOMS:
             return '(CTrue (CVar "%s"))' % ATOMS[key]
+        m = re.match(r"^isnan\s*\(\s*(%s)\s*\)$" % VAR_RE, s)
+        if m:
+            v = self.term(m.group(1))           # x != x holds exactly for NaN
+            return "(CCmp ONe %s %s)" % (v, v)
         ops = [(m.start(), m.group(0)) for m in re.finditer(r"<=|>=|==|!=|<|>", re.sub(r"->", "~~", s))]
         if len(ops) == 1:
             pos, op = ops[0]
@@ -396,6 +416,21 @@ class Translator(object):
         for call in re.finditer(r"\b([A-Za-z_]\w*)\s*\(", t):
             if call.group(1) not in PURE_MACROS and call.group(1) not in ("int", "double", "void", "const", "complex"):
                 return False
+        # single declarator whose initialiser / array bound contains commas: the head in front of the first '=' or '['
+        # consists of identifiers, 'const' and '*' only and has at least two identifiers (type, name)
+        cut = len(t)
+        for k, ch in enumerate(t):
+            if ch in "=[":
+                cut = k
+                break
+        head = t[:cut]
+        if re.match(r"^[\w\s\*]+$", head) and not (cut < len(t) and t[cut:cut + 2] == "=="):
+            ids = re.findall(r"[A-Za-z_]\w*", head)
+            if len([x for x in ids if x not in ("const", "static", "unsigned", "struct")]) >= 2:
+                locals_.add(ids[-1])
+                if "*" not in head:
+                    struct_locals.add(ids[-1])
+                return True
         # declaration (with or without initialiser), possibly several declarators
         m = re.match(r"^(?:const\s+|static\s+|unsigned\s+)*(?:struct\s+)?[A-Za-z_]\w*(?:\s+complex)?\b(?:\s+const)?\s*((?:\**\s*(?:const\s+)?[A-Za-z_]\w*"
                      r"(?:\[[^\]]*\])*\s*(?:=[^,;]*)?\s*,?\s*)+)$", t, flags=re.S)
@@ -586,11 +621,25 @@ class Translator(object):
                 t = s["text"].strip()
                 if self.neutral(t, self._gl, self._gs):
                     continue            # declaration / local computation
+                if re.match(r"^[A-Za-z_]\w*\s*\[[^\]]*\]\s*=(?!=)[^;]*;$", t) and "->" not in t.split("=")[0] and not re.search(r"[a-z_]\w*\s*\(", t):
+                    continue            # store into a local array
+                if re.match(r"^\(void\)\s*memset\s*\(\s*\(void\s*\*\)\s*&\s*\w+\s*,", t):
+                    continue            # memset of a local array
                 if re.match(r"^\+\+\s*\w+\s*;$", t):
                     continue
                 return None
             if s["kind"] in ("if", "for"):
+                if neutral_compound(s):
+                    continue
                 if s["kind"] == "if" and not s["else"]:
+                    callee = [n for n in REPORTING_CALLEES if re.search(r"\b%s\s*\(" % n, s["cond"])]
+                    if callee and ret_value(" ".join(x["text"] for x in eo.unwrap(s["body"]))) in FVAL:
+                        key = norm(pre + s["cond"])
+                        if key not in ATOMS:
+                            raise ContractError("%s: test inside a loop / guard is not in ATOMS: %r" % (fn, key))
+                        v = ret_value(" ".join(x["text"] for x in eo.unwrap(s["body"])))
+                        out.append('SReport (CTrue (CVar "%s")) %s %s' % (ATOMS[key], self.callee_category(callee[0]), FVAL[v]))
+                        continue
                     got = self.check_body(fn, s["body"], fail)
                     if got is not None and got[0] == "report" and got[1] == "SYSTEM":
                         return None
@@ -606,6 +655,8 @@ class Translator(object):
                 out.extend(inner)
                 continue
             return None
+        if kind == "if" and st["else"] and neutral_compound(st["else"][0]):
+            return out or None
         if kind == "if" and st["else"]:
             els = st["else"][0]
             if els["kind"] != "if" or els["else"]:
@@ -685,6 +736,119 @@ class Translator(object):
         none_of = c_or(["(CCmp OEq %s (CInt (%d)))" % (var, v) for v in all_labels])
         out.append("SReport (CNot %s) %s %s" % (none_of, default[0], FVAL[default[1]]))
         return out
+
+
+NEUTRAL_CALLEES = set("memset memcpy qsort assert abort MIN MAX sizeof".split()) | PURE_MACROS
+
+
+def neutral_compound(st):
+    """a compound statement that leaves neither the function nor a trace in the object: no return / goto / report, no store
+    through a pointer member, only calls that work on locals"""
+    t = st["text"]
+    if re.search(r"\breturn\b|\bgoto\b|_vnacal_error", t) or any(re.search(r"\b%s\s*\(" % n, t) for n in REPORTING_CALLEES):
+        return False
+    if re.search(r"->\s*\w+(?:\s*\[[^\]]*\])*\s*(?:=(?!=)|\+\+|--|\+=|-=)", t):
+        return False
+    for c in re.finditer(r"\b([A-Za-z_]\w*)\s*\(", t):
+        if c.group(1) not in NEUTRAL_CALLEES and c.group(1) not in ("if", "for", "while", "switch", "void", "int", "bool"):
+            return False
+    return True
+
+
+def strip_keep_chars(text):
+    t = re.sub(r"/\*.*?\*/", " ", text, flags=re.S)
+    t = re.sub(r"//[^\n]*", " ", t)
+    t = re.sub(r'"(?:\\.|[^"\\])*"', '""', t)
+    t = re.sub(r"(?m)^[ \t]*#[^\n]*(?:\\\n[^\n]*)*", " ", t)
+    return t
+
+
+def translate_add_common(tr):
+    """_vnacal_new_add_common: failures leave through 'goto out' (int rc = -1; ...; rc = 0; out: clean-up; return rc;).
+    -> (steps of the argument validation in front of the first allocation followed by the two tests made on the
+        not yet linked measurement, type table of the switch that sets ptype / min_b_rows / min_b_columns)"""
+    fn, path = "_vnacal_new_add_common", "vnacal_new_add_common.c"
+    with open(os.path.join(tr.srcdir, path)) as f:
+        text = strip_keep_chars(f.read())
+    params, body = eo.function_body(text, fn, path)
+    nb = norm(body)
+    if "intrc=-1;" not in nb or nb.count("rc=0;") != 1 or not re.search(r"rc=0;out:", nb) or not nb.endswith("returnrc;"):
+        raise ContractError("%s: the 'rc = -1 ... rc = 0; out: ... return rc;' frame changed" % fn)
+    body = re.sub(r"\bgoto\s+out\s*;", "return -1;", body)
+    stmts = eo.statements(body)
+    steps, table = [], None
+    locals_, structs = set(), set()
+    i = 0
+    while i < len(stmts):
+        st = stmts[i]
+        text_ = st["text"].strip()
+        if st["kind"] == "if" and ALLOC_RE.search(st["cond"]):
+            break
+        i += 1
+        if st["kind"] == "simple":
+            if tr.neutral(text_, locals_, structs):
+                continue
+            m = re.match(r"^\(void\)\s*mem(?:set|cpy)\s*\(\s*\(void\s*\*\)\s*&?\s*(\w+)\s*,", text_)
+            if m and m.group(1) in locals_:
+                continue            # fills a local array
+            raise ContractError("%s: statement %r in the argument validation is not a declaration / local computation" % (fn, norm(text_)[:120]))
+        if st["kind"] == "switch" and table is None and norm(st["cond"]) == "VL_TYPE(vlp)" and not re.search(r"return|_vnacal_error", text_):
+            table = []
+            labels = []
+            assigns = {}
+            for x in eo.unwrap(st["body"]):
+                t = norm(x["text"])
+                if x["kind"] == "label":
+                    if assigns:
+                        raise ContractError("%s: switch arm without break" % fn)
+                    labels.append(x["name"].strip())
+                elif t == "break;":
+                    vals = []
+                    for l in labels:
+                        m = re.match(r"^case\s+(\w+)$", l)
+                        if not m or m.group(1) not in tr.consts:
+                            raise ContractError("%s: case label %r" % (fn, l))
+                        vals.append(tr.consts[m.group(1)])
+                    if set(assigns) != set(["ptype", "min_b_rows", "min_b_columns"]):
+                        raise ContractError("%s: switch arm assigns %s" % (fn, sorted(assigns)))
+                    for v in vals:
+                        table.append((v, ord(assigns["ptype"][1]), assigns["min_b_rows"], assigns["min_b_columns"]))
+                    labels, assigns = [], {}
+                elif t == "abort();":
+                    labels = []
+                else:
+                    m = re.match(r"^(\w+)=('[A-Z]'|\w+);$", t)
+                    if not m:
+                        raise ContractError("%s: statement %r in the type switch" % (fn, t))
+                    assigns[m.group(1)] = m.group(2)
+            continue
+        if neutral_compound(st):
+            continue
+        got = tr.compound(fn, st, "-1", locals_)
+        if got is None or not all(g.startswith("SReport") for g in got):
+            raise ContractError("%s: statement %r of the argument validation not understood" % (fn, norm(text_)[:160]))
+        steps.extend(got)
+    if table is None:
+        raise ContractError("%s: type switch not found" % fn)
+    nprefix = len(steps)
+    # the tests made while the new measurement is filled in (it is linked only after them)
+    tail = []
+    for st in stmts[i:]:
+        t = st["text"]
+        if st["kind"] == "label":
+            break
+        if "VNAERR_MATH" in t:
+            if st["kind"] != "if" or norm(st["cond"]) != "a_matrix==NULL" or set(report_categories(t)) - set(["MATH"]):
+                raise ContractError("%s: the 'a' matrix division no longer hangs under if (a_matrix == NULL) ... else" % fn)
+            tail.append('SReport (CAnd (CCmp ONe (CVar "a_matrix") CNull) (CTrue (CVar "atom:add_a_matrix_singular"))) MATH VM1')
+        elif "_vnacal_new_err_need_full_s" in t:
+            got = tr.guarded(fn, st, "-1", "")
+            if not got or len(got) != 1:
+                raise ContractError("%s: the full-S test of T16 / U16 not understood" % fn)
+            tail.extend(got)
+        elif set(report_categories(t)) - set(["SYSTEM"]):
+            raise ContractError("%s: unexpected report behind the argument validation: %r" % (fn, norm(t)[:120]))
+    return steps + tail, nprefix, table
 
 
 def split_args(s):
@@ -803,7 +967,9 @@ def translate(srcdir):
         except eo.OrderError as e:
             raise ContractError("%s: %s" % (fn, e))
         contracts.append((fn, fail, steps))
+    add_steps, add_prefix, add_table = translate_add_common(tr)
     return {"contracts": contracts, "verror": verror_paths(srcdir), "wrappers": apply_wrappers(tr),
+            "add_common": add_steps, "add_prefix": add_prefix, "add_table": add_table,
             "max_precision": tr.consts.get("VNACAL_MAX_PRECISION"), "vc_magic": tr.consts["VC_MAGIC"], "vn_magic": tr.consts["VN_MAGIC"]}
 
 
@@ -823,6 +989,15 @@ def emit(info):
     L.append("(* every translated function with its documented failure value *)")
     L.append("Definition gen_contracts : list (string * fval * list cstep) :=")
     L.append("  [" + ";\n   ".join('("%s", %s, gen_contract_%s)' % (fn, FVAL[fail], fn.lstrip("_")) for fn, fail, _ in info["contracts"]) + "].")
+    L.append("")
+    L.append("(* _vnacal_new_add_common: the argument validation in front of the first allocation (gen_add_common_prefix steps) and")
+    L.append("   the tests made while the not yet linked measurement is filled in; the switch that sets ptype / min_b_rows /")
+    L.append("   min_b_columns per type: (type, ptype, min_b_rows, min_b_columns) *)")
+    L.append("Definition gen_contract_vnacal_new_add_common : list cstep :=")
+    L.append("  [" + ";\n   ".join(info["add_common"]) + "].")
+    L.append("Definition gen_add_common_prefix : nat := %d%%nat." % info["add_prefix"])
+    L.append("Definition gen_add_type_table : list (Z * (Z * string * string)) :=")
+    L.append("  [" + "; ".join('(%d, (%d, "%s", "%s"))' % t for t in info["add_table"]) + "].")
     L.append("")
     L.append("(* the paths through the epilogue of _vnaerr_verror *)")
     for name, eff in info["verror"]:
